@@ -47,6 +47,9 @@ def _en_only():
     fam.append(modifier_expressions())
     fam.append(holiday_expressions('en-us'))
     fam.append(compound_currency_expressions())
+    # a currency amount with a unit on both sides (the extractor rewrites the thousands comma in a working copy of the input)
+    fam.append(st.builds(lambda p, n, s: ('currency-both-sides', '%s%s%s' % (p, format(n, ','), s)), st.sampled_from(['$', 'us$', '€', '£']),
+                         st.one_of(st.integers(1, 999), st.integers(1000, 10 ** 7)), st.sampled_from(['$', 'usd', ' usd', '€', ' dollars'])))
     fam.append(c07.seconds_cases().map(lambda k: ('time', c07.time_text(k))))
     fam.append(c07.composed_cases().map(lambda k: ('datetime', c07.build(dict(k, carrier='{}'))[2])))
     fam.append(c08.cases().map(lambda k: ('relative-date', c08.build(dict(k, carrier='{}'))[2])))
